@@ -220,6 +220,8 @@ type traceOp struct {
 var reOpen = regexp.MustCompile(`^\d+\s+(openat|open|creat)\((?:AT_FDCWD|\d+)?,?\s*"([^"]*)"(?:,\s*([A-Z_|0-9]+))?.*\)\s+=\s+(-?\d+.*)$`)
 var reOther = regexp.MustCompile(`^\d+\s+(rename|renameat|renameat2|unlink|unlinkat|truncate|mkdir|mkdirat|link|linkat|symlink|symlinkat|rmdir|chmod|fchmodat)\((.*)\)\s+=\s+(-?\d+.*)$`)
 var reQuoted = regexp.MustCompile(`"([^"]*)"`)
+var rePid = regexp.MustCompile(`^(\d+)\s`)
+var reResumed = regexp.MustCompile(`^(\d+)\s+<\.\.\. \w+ resumed>(.*)$`)
 
 func parseTrace(traceFile, dir string) []traceOp {
 	f, err := os.Open(traceFile)
@@ -243,8 +245,24 @@ func parseTrace(traceFile, dir string) []traceOp {
 	}
 	sc := bufio.NewScanner(f)
 	sc.Buffer(make([]byte, 1<<20), 1<<24)
+	// with -f, a call of one thread can be printed in two pieces around calls of other threads:
+	//   123 openat(AT_FDCWD, "x", O_WRONLY <unfinished ...>
+	//   123 <... openat resumed>) = 3
+	pending := map[string]string{}
 	for sc.Scan() {
 		line := sc.Text()
+		if i := strings.Index(line, " <unfinished ...>"); i >= 0 {
+			if m := rePid.FindStringSubmatch(line); m != nil {
+				pending[m[1]] = line[:i]
+			}
+			continue
+		}
+		if m := reResumed.FindStringSubmatch(line); m != nil {
+			if pre, ok := pending[m[1]]; ok {
+				delete(pending, m[1])
+				line = pre + m[2]
+			}
+		}
 		if m := reOpen.FindStringSubmatch(line); m != nil {
 			flags := m[3]
 			if m[1] == "creat" {
